@@ -46,12 +46,24 @@ func decodeOn(proto string, addr []byte, pre [][]byte, dgram []byte) (recs []str
 }
 
 func runMeta(c *metaCase) (string, string) {
+	return runMetaBase(c, nil, nil)
+}
+
+// runMetaBase is runMeta with the decode of the complete datagram optionally supplied by the caller
+// (the truncation sweeps decode it once per message, not once per cut).
+func runMetaBase(c *metaCase, preBase []string, preBD *decoded) (string, string) {
 	addr := mon.UnHex(c.Addr)
 	var pre [][]byte
 	for _, p := range c.Pre {
 		pre = append(pre, mon.UnHex(p))
 	}
-	base, bd := decodeOn(c.Proto, addr, pre, mon.UnHex(c.Base))
+	var base []string
+	var bd decoded
+	if preBD != nil {
+		base, bd = preBase, *preBD
+	} else {
+		base, bd = decodeOn(c.Proto, addr, pre, mon.UnHex(c.Base))
+	}
 	got, gd := decodeOn(c.Proto, addr, pre, mon.UnHex(c.Perturbed))
 	c.BaseRecs, c.GotRecs, c.Err = base, got, gd.Err
 	if bd.Panic != "" || gd.Panic != "" {
@@ -106,7 +118,7 @@ func metaMain(args mon.Args) {
 		run.HarnessError(err.Error())
 		run.Finish()
 	}
-	n := run.Pick(1500, 40000)
+	n := run.Pick(1200, 40000)
 	mon.ParallelFor(n, func(i int) {
 		g := mon.NewRNG(run.Seed, "meta", i)
 		proto := []string{"ipfix", "nf9"}[i%2]
@@ -145,10 +157,11 @@ func metaMain(args mon.Args) {
 		}
 		baseSets := fc.SetsPer[last]
 		base := fc.Dgrams[last]
+		baseRecs, baseD := decodeOn(proto, fc.Addr, pre, base)
 		mk := func(kind, detail string, pert []byte) {
 			c := &metaCase{Proto: proto, Addr: mon.Hex(fc.Addr), Pre: preHex, Base: mon.Hex(base), Perturbed: mon.Hex(pert), Kind: kind, Detail: detail}
 			run.Eval(1)
-			if k, w := runMeta(c); k != "" {
+			if k, w := runMetaBase(c, baseRecs, &baseD); k != "" {
 				run.Violation("meta:"+proto+":"+k, w, c)
 			} else if run.WantSample() && kind != "truncate" {
 				run.Sample(map[string]interface{}{"proto": proto, "kind": kind, "detail": detail, "complete": c.Base, "perturbed": c.Perturbed, "records": len(c.BaseRecs)})
@@ -180,14 +193,54 @@ func metaMain(args mon.Args) {
 						u.RawBody = g.Bytes(g.Range(tu.MinRecLen(), 64))
 					}
 				}
+				nested := false
+				if kind != "reserved" && g.Chance(1, 3) {
+					// hostile body: the octets of the undecodable set are themselves a complete, valid data set of a
+					// template this exporter has announced - they must never be read as a set of their own
+					for _, bs := range baseSets {
+						if bs.Kind == wire.SetData {
+							one := bs
+							one.Records = one.Records[:1]
+							one.Pad = 0
+							enc, _ := wire.EncodeFlow(proto, []uint32{0, 0, 0, 0}, []wire.Set{one})
+							hl := 16
+							if proto == "nf9" {
+								hl = 20
+							}
+							if len(enc)-hl <= 200 {
+								u.RawBody = append(append([]byte{}, enc[hl:]...), g.Bytes(g.Intn(4))...)
+								nested = true
+							}
+							break
+						}
+					}
+				}
 				sets := append(append(append([]wire.Set{}, baseSets[:p]...), u), baseSets[p:]...)
 				pert, _ := wire.EncodeFlow(proto, fc.HdrRaw[last], sets)
 				if len(pert) > 65000 {
 					continue
 				}
-				run.Distinct(fmt.Sprintf("%s|%s|pos%d/%d|body%d", proto, kind, p, len(baseSets), len(u.RawBody)%8))
+				run.Distinct(fmt.Sprintf("%s|%s|pos%d/%d|body%d|nested%v", proto, kind, p, len(baseSets), len(u.RawBody)%8, nested))
 				run.Add("insertions", 1)
-				mk("insert:"+kind, fmt.Sprintf("set id %d with %d body octets inserted before set #%d of %d", u.SetID, len(u.RawBody), p, len(baseSets)), pert)
+				detail := fmt.Sprintf("set id %d with %d body octets (valid nested set: %v) inserted before set #%d of %d", u.SetID, len(u.RawBody), nested, p, len(baseSets))
+				mk("insert:"+kind, detail, pert)
+				// truncation of the perturbed message at every cut inside and just after the inserted set: what is
+				// emitted must still be a prefix of what the complete (perturbed = original) message yields
+				before, _ := wire.EncodeFlow(proto, fc.HdrRaw[last], sets[:p])
+				from, to := len(before), len(before)+4+len(u.RawBody)+4
+				if to > len(pert) {
+					to = len(pert)
+				}
+				pb, pbd := decodeOn(proto, fc.Addr, pre, pert)
+				for cut := from; cut <= to; cut++ {
+					run.Add("truncations_inside_an_undecodable_set", 1)
+					c := &metaCase{Proto: proto, Addr: mon.Hex(fc.Addr), Pre: preHex, Base: mon.Hex(pert), Perturbed: mon.Hex(pert[:cut]), Kind: "truncate",
+						Detail: fmt.Sprintf("%s, then cut at octet %d of %d", detail, cut, len(pert))}
+					run.Eval(1)
+					if k, w := runMetaBase(c, pb, &pbd); k != "" {
+						run.Violation("meta:"+proto+":"+k+":inside-undecodable-set", w, c)
+					}
+				}
 			}
 		}
 		// truncation: every cut (stride on very long messages)
